@@ -676,3 +676,57 @@ Proof.
   destruct (B1 Hc) as [_ Q1]. destruct (disc_wait_done c) eqn:Ed; [left; reflexivity|right].
   cbn [step]. rewrite Hp, Ed. destruct (finish_fut c); try discriminate. exfalso. apply Q1. reflexivity.
 Qed.
+
+(* a cancel always leaves the cancelled coroutine resumable: what it awaited is cancelled, or the pending-cancel flag is up *)
+Lemma cancel_task_ready c t : task_running (get_task c t) = true -> ready_now (cancel_task c t) t.
+Proof.
+  intro Hr. unfold cancel_task. rewrite Hr. cbn [negb].
+  assert (Hex : exists_task c t) by (apply pc_exists_task; intro Hp; unfold task_running in Hr; rewrite Hp in Hr; discriminate).
+  set (k1 := get_task c t <| ncancel := S (ncancel (get_task c t)) |>).
+  pose proof (cancel_awaited_tasks c t k1 t) as HT.
+  assert (Hex1 : exists_task (fst (cancel_awaited c t k1)) t).
+  { apply pc_exists_task. rewrite HT. intro Hp. unfold task_running in Hr. rewrite Hp in Hr. discriminate. }
+  unfold ready_now.
+  destruct (cancel_awaited c t k1) as [c1 d] eqn:Eca. cbn [fst] in HT, Hex1.
+  destruct d.
+  - (* delivered *)
+    match goal with |- context [set_task c1 t ?k'] => destruct (set_task_facts c1 t k' Hex1) as (Hself & _); rewrite Hself;
+      destruct (set_task_fields c1 t k') as (_ & _ & _ & F4 & F5 & F6 & F7) end.
+    unfold cancel_awaited in Eca. cbn [pc set k1] in Eca |- *.
+    destruct (pc (get_task c t)) eqn:Ep; cbn [pc set must_cancel]; try (unfold task_running in Hr; rewrite Ep in Hr; discriminate).
+    + destruct (do_connect c) eqn:Ed; cbn in Eca; apply pair_inv in Eca; destruct Eca as [<- Q]; try discriminate. right. rewrite F5. cbn. discriminate.
+    + destruct (do_connect c) eqn:Ed; cbn in Eca; apply pair_inv in Eca; destruct Eca as [<- Q]; try discriminate. right. rewrite F5. cbn. discriminate.
+    + destruct (made_waiter c) eqn:Ed; cbn in Eca; apply pair_inv in Eca; destruct Eca as [<- Q]; try discriminate. right.
+      destruct t; cbn; discriminate.
+    + destruct (ready c) eqn:Ed; apply pair_inv in Eca; destruct Eca as [<- Q]; try discriminate. right. rewrite F6. cbn. discriminate.
+    + destruct (get_call c cid) as [kk|] eqn:G; [|apply pair_inv in Eca; destruct Eca as [_ Q]; discriminate].
+      destruct (c_fut kk) eqn:Ef; apply pair_inv in Eca; destruct Eca as [<- Q]; try discriminate. right.
+      unfold get_call. rewrite F7. cbn [calls upd_call set]. rewrite find_map_id by (intro x; destruct (Nat.eqb (c_id x) cid); reflexivity).
+      unfold get_call in G. rewrite G. cbn [option_map]. eexists. split; [reflexivity|].
+      apply find_some in G. destruct G as [_ G]. rewrite G. reflexivity.
+    + left. reflexivity.
+    + destruct (get_call c cid) as [kk|] eqn:G; [|apply pair_inv in Eca; destruct Eca as [_ Q]; discriminate].
+      destruct (c_fut kk) eqn:Ef; apply pair_inv in Eca; destruct Eca as [<- Q]; try discriminate. right.
+      unfold get_call. rewrite F7. cbn [calls upd_call set]. rewrite find_map_id by (intro x; destruct (Nat.eqb (c_id x) cid); reflexivity).
+      unfold get_call in G. rewrite G. cbn [option_map]. eexists. split; [reflexivity|].
+      apply find_some in G. destruct G as [_ G]. rewrite G. reflexivity.
+    + destruct (get_call c cid) as [kk|] eqn:G; [|apply pair_inv in Eca; destruct Eca as [_ Q]; discriminate].
+      destruct (c_fut kk) eqn:Ef; apply pair_inv in Eca; destruct Eca as [<- Q]; try discriminate. right.
+      unfold get_call. rewrite F7. cbn [calls upd_call set]. rewrite find_map_id by (intro x; destruct (Nat.eqb (c_id x) cid); reflexivity).
+      unfold get_call in G. rewrite G. cbn [option_map]. eexists. split; [reflexivity|].
+      apply find_some in G. destruct G as [_ G]. rewrite G. reflexivity.
+  - (* not delivered: the pending-cancel flag is raised *)
+    match goal with |- context [set_task c1 t ?k'] => destruct (set_task_facts c1 t k' Hex1) as (Hself & _); rewrite Hself end.
+    left. reflexivity.
+Qed.
+
+Theorem closed_finish_interruptible_ready n e ka scr ls c os :
+  run (init n e ka scr) ls = Some (c, os) -> cs c = Closed -> phase_running (pc (t_finish c)) = true ->
+  intr_finish c = IFired \/ exists c', step c (LIntr false) = Some (c', []) /\ ready_now c' TFinish.
+Proof.
+  intros E Hc Hp. pose proof (run_CK2 ls _ _ _ (CK2_init n e ka scr) E) as [B1 B2 B3].
+  destruct (B1 Hc) as [_ Q1]. destruct (B3 Hp) as [Q2 [Q3|Q3]]; [right|left; exact Q3].
+  cbn [step]. destruct (finish_fut c) eqn:Es; try contradiction. rewrite Q3.
+  eexists. split; [reflexivity|]. apply cancel_task_ready. cbn [get_task t_finish set]. unfold task_running. cbn.
+  destruct (pc (t_finish c)); try discriminate; reflexivity.
+Qed.
